@@ -19,7 +19,7 @@ def universe():
     A1 = pygaps.Adsorbate('pgv_a1', formula='X', molar_mass=10.0, alias=['pgv_a1b'])
     A1b = pygaps.Adsorbate('pgv_a1', formula='Y', colour='red')
     A2 = pygaps.Adsorbate('pgv_a2')
-    M1 = pygaps.Material('pgv_m1', density=2.0, batch='b1')
+    M1 = pygaps.Material('pgv_m1', density=2.0, batch='b1', sieve=[0.5, 1.5, 2.5])  # a list-valued property: one row per element
     M1b = pygaps.Material('pgv_m1', density=3.0)
     M2 = pygaps.Material('pgv_m2')
     A1c = pygaps.Adsorbate('pgv_a1')  # overwriting with an item that has no properties must remove the old ones
